@@ -17,7 +17,7 @@ def json_to_py(j):
 
 
 class RealVM:
-    def __init__(self, case):
+    def __init__(self, case, world=None):
         paths.use_repo()
         from connectome.engine import (TreeNode, FunctionEdge, IdentityEdge, ConstantEdge, ProductEdge, CacheEdge,
                                        HashBarrier, ComputableHashEdge, ImpureEdge, Graph)
@@ -26,9 +26,11 @@ class RealVM:
         from connectome.layers.check_ids import CheckIdsEdge
         from connectome.cache import MemoryCache
         self.Graph = Graph
-        self.world = SymWorld()
+        self.world = world or SymWorld()
         for name in case.get('impure', []):
             self.world.impure.add(name)
+        for name, v in case.get('const_fns', []):
+            self.world.consts[name] = json_to_py(v)
         self.stores = [MemoryCache(s) for s in case.get('stores', [])]
         self.case = case
 
